@@ -37,6 +37,38 @@ def stateDiff (m i : State) : Option String :=
                   else some s!"db={d} store order"
   r.orElse fun _ => some "dbs differ"
 
+/-- strip `pre` from the front of `bs` -/
+def stripPrefix (pre bs : Bytes) : Option Bytes :=
+  if bs.take pre.length == pre then some (bs.drop pre.length) else none
+
+/-- `rest` is a concatenation of exactly `k` groups drawn from `pool` (without reuse if `distinct`) -/
+def consumeGroups : Nat → Nat → Bool → List Bytes → Bytes → Bool
+  | 0, _, _, _, _ => false
+  | _ + 1, 0, _, _, rest => rest.isEmpty
+  | fuel + 1, k + 1, distinct, pool, rest =>
+    match pool.find? fun g => !g.isEmpty && rest.take g.length == g with
+    | none => false
+    | some g => consumeGroups fuel k distinct (if distinct then pool.erase g else pool) (rest.drop g.length)
+
+def replyMatches (r : Res) (impl : Bytes) : Bool :=
+  match r with
+  | .ok a => a == impl
+  | .err _ => false
+  | .okPerm hdr groups =>
+    match stripPrefix hdr impl with
+    | none => false
+    | some rest => consumeGroups (groups.length + 2) groups.length true groups rest
+  | .okPick hdr k distinct groups =>
+    match stripPrefix hdr impl with
+    | none => false
+    | some rest => consumeGroups (k + 2) k distinct groups rest
+
+def showRes : Res → String
+  | .ok a => s!"ok({toHex a})"
+  | .err a => s!"err({toHex a})"
+  | .okPerm h g => s!"okPerm({toHex h},{g.map toHex})"
+  | .okPick h k d g => s!"okPick({toHex h},{k},{d},{g.map toHex})"
+
 def verdict (t : Transition) : String :=
   match step t.ctx t.pre t.cmd with
   | none => "SKIP unmodelled-command"
@@ -51,12 +83,11 @@ def verdict (t : Transition) : String :=
     | .done r =>
       let replyDiff : Option String :=
         match r, t.obs with
-        | .ok a, .ok c => if a == c then none else some s!"reply model={toHex a} impl={toHex c}"
         | .err a, .err c => if a == c then none else some s!"errtext model={toHex a} impl={toHex c}"
-        | .ok a, .err c => some s!"outcome model=ok({toHex a}) impl=err({toHex c})"
         | .err a, .ok c => some s!"outcome model=err({toHex a}) impl=ok({toHex c})"
-        | .ok a, .panic => some s!"outcome model=ok({toHex a}) impl=panic"
-        | .err a, .panic => some s!"outcome model=err({toHex a}) impl=panic"
+        | r, .ok c => if replyMatches r c then none else some s!"reply model={showRes r} impl={toHex c}"
+        | r, .err c => some s!"outcome model={showRes r} impl=err({toHex c})"
+        | r, .panic => some s!"outcome model={showRes r} impl=panic"
       match replyDiff with
       | some d => s!"DIFF {d}"
       | none => match stateDiff (canonState s') (canonState t.post) with
